@@ -20,7 +20,7 @@ RULE = (
 ASSUMPTIONS = [
     "name -> (Z,A) table typed from docs/theory/misc.rst (proton, neutron, isoscalar) and from the physics "
     "stated next to the implementation (NuTeV steel 23.403/49.618, Pb 82/208, Ne 10/20, CaCO3 average 10/20)",
-    "configurations excluded by construction: polarised CC, polarised N3LO, TMC for gL/g4, N3LO massive NC",
+    "configurations excluded by construction (documented gaps, explicitly rejected by the code): polarised CC, polarised N3LO, TMC for gL/g4",
 ]
 BUDGET = {"quick": {"examples": 2400, "wall": 300}, "thorough": {"examples": 40000, "wall": 2400}}
 MANDATORY = {t: ["nontrivial", "target:name", "target:ZA", "xs", "tmc:on"] for t in ("quick", "thorough")}
